@@ -203,6 +203,118 @@ func c04ZeroKeyTest(fd *ast.FuncDecl) bool {
 	return compares >= 1 && !helper
 }
 
+// c04WithParents walks a function body keeping the stack of enclosing nodes.
+func c04WithParents(fd *ast.FuncDecl, visit func(n ast.Node, parents []ast.Node)) {
+	if fd == nil || fd.Body == nil {
+		return
+	}
+	var stack []ast.Node
+	ast.Inspect(fd.Body, func(n ast.Node) bool {
+		if n == nil {
+			stack = stack[:len(stack)-1]
+			return true
+		}
+		visit(n, stack)
+		stack = append(stack, n)
+		return true
+	})
+}
+
+// c04PendingCloses: every closePendingOpen / closePendingOpenWS call in the
+// file, as ("func: arg", ok). ok = the argument is an error for sure
+// (ctx.Err(), fmt.Errorf, or err inside "if err != nil"), or it is nil inside
+// one of the *OpenAck handlers (the only place where an open succeeds).
+func c04PendingCloses(f *ast.File) (rows [][2]string) {
+	if f == nil {
+		return
+	}
+	for _, d := range f.Decls {
+		fd, ok := d.(*ast.FuncDecl)
+		if !ok {
+			continue
+		}
+		c04WithParents(fd, func(n ast.Node, parents []ast.Node) {
+			call, ok := n.(*ast.CallExpr)
+			if !ok || len(call.Args) != 1 {
+				return
+			}
+			sel, ok := call.Fun.(*ast.SelectorExpr)
+			if !ok || !strings.HasPrefix(sel.Sel.Name, "closePendingOpen") {
+				return
+			}
+			arg := src(call.Args[0])
+			good := false
+			switch {
+			case arg == "nil":
+				good = strings.HasSuffix(fd.Name.Name, "OpenAck")
+			case arg == "ctx.Err()" || strings.HasPrefix(arg, "fmt.Errorf(") || strings.HasPrefix(arg, "errors.New("):
+				good = true
+			case arg == "err":
+				for _, p := range parents {
+					if is, ok := p.(*ast.IfStmt); ok && strings.Contains(src(is.Cond), "err != nil") {
+						good = true
+					}
+				}
+			}
+			rows = append(rows, [2]string{fd.Name.Name + ": " + arg, coqBool(good)})
+		})
+	}
+	return
+}
+
+// c04ReturnsAfterPending: in getOrCreateDestAssociation a cached association is
+// returned only from inside a "case <-x.PendingOpen:" clause.
+func c04ReturnsAfterPending(fd *ast.FuncDecl) bool {
+	if fd == nil || fd.Body == nil {
+		return false
+	}
+	ok, seen := true, 0
+	c04WithParents(fd, func(n ast.Node, parents []ast.Node) {
+		rs, isRet := n.(*ast.ReturnStmt)
+		if !isRet || len(rs.Results) != 2 {
+			return
+		}
+		if _, isIdent := rs.Results[0].(*ast.Ident); !isIdent || src(rs.Results[0]) == "nil" {
+			return
+		}
+		seen++
+		inside := false
+		for _, p := range parents {
+			if cc, isCC := p.(*ast.CommClause); isCC && cc.Comm != nil && strings.Contains(src(cc.Comm), ".PendingOpen") {
+				inside = true
+			}
+		}
+		if !inside {
+			ok = false
+		}
+	})
+	return ok && seen >= 1
+}
+
+// c04RelayKeepsKey: the OPEN a transit forwards carries the received
+// ephemeral key ("EphemeralPubKey: open.EphemeralPubKey" in every
+// protocol.<kind> literal of the handler).
+func c04RelayKeepsKey(fd *ast.FuncDecl, typ string) bool {
+	if fd == nil || fd.Body == nil {
+		return false
+	}
+	lits, good := 0, 0
+	ast.Inspect(fd.Body, func(n ast.Node) bool {
+		cl, ok := n.(*ast.CompositeLit)
+		if !ok || src(cl.Type) != typ {
+			return true
+		}
+		lits++
+		for _, el := range cl.Elts {
+			if kv, ok := el.(*ast.KeyValueExpr); ok && src(kv.Key) == "EphemeralPubKey" && src(kv.Value) == "open.EphemeralPubKey" {
+				good++
+			}
+		}
+		return true
+	})
+	return lits >= 1 && lits == good
+}
+
 func genC04(g *gen) {
 	type row struct {
 		name string
@@ -266,6 +378,18 @@ func genC04(g *gen) {
 		{"agent.deriveICMPSessionKey", c04ZeroKeyTest(findFunc(icmpFile, "", "deriveICMPSessionKey"))},
 		{"agent.deriveResponderSessionKey", c04ZeroKeyTest(findFunc(agentFile, "", "deriveResponderSessionKey"))},
 		{"shell.Handler.HandleStreamOpen", c04ZeroKeyTest(findFuncInDir("internal/shell", "Handler", "HandleStreamOpen"))},
+	})
+
+	var pend []row
+	for _, pr := range append(c04PendingCloses(udpFile), c04PendingCloses(icmpFile)...) {
+		pend = append(pend, row{pr[0], pr[1] == "true"})
+	}
+	emit("gen_pending_open_closes", pend)
+	g.line("Definition gen_cached_assoc_only_after_pending_open : bool := %s.", coqBool(c04ReturnsAfterPending(findFunc(udpFile, "Agent", "getOrCreateDestAssociation"))))
+	emit("gen_relay_keeps_ephemeral_key", []row{
+		{"handleStreamOpen", c04RelayKeepsKey(findFunc(agentFile, "Agent", "handleStreamOpen"), "protocol.StreamOpen")},
+		{"handleUDPOpen", c04RelayKeepsKey(findFunc(udpFile, "Agent", "handleUDPOpen"), "protocol.UDPOpen")},
+		{"handleICMPOpen", c04RelayKeepsKey(findFunc(icmpFile, "Agent", "handleICMPOpen"), "protocol.ICMPOpen")},
 	})
 
 	zeroers, writers := c04KeyMutators()
